@@ -1009,7 +1009,8 @@ impl FixtureDatabase {
                         if decorators::is_usefixtures_decorator(decorator) {
                             return Some(CompletionContext::UsefixturesDecorator);
                         }
-                        if decorators::is_parametrize_decorator(decorator) {
+                        // Only argument names of an indirect parametrization are fixtures
+                        if decorators::is_indirect_parametrize_decorator(decorator) {
                             return Some(CompletionContext::ParametrizeIndirect);
                         }
                     }
